@@ -6,13 +6,19 @@ import os
 from vf import core
 from vf.core import CorrResult, Failure
 from . import kalman_common as kc
+from . import kalman_sessions as ks
 
 ID = "C03"
 PROPS = "props/C03.v"
 GENERATED: list = []
-CASE_DEPS = ["lib/MatOps.vo", "model/Kalman.vo", "lib/KalmanCase.vo"]
+CASE_DEPS = ["lib/MatOps.vo", "model/Kalman.vo", "lib/KalmanCase.vo", "model/KalmanSession.vo", "lib/KalmanSessionCase.vo"]
 ALLOWED_AXIOMS: set = set()          # the theorems are closed under the global context
 TRUSTED = [
+    "model/KalmanSession.v is hand-written from has_variants.py (alter_num_variants, iter_variants), simultaneous/main.py "
+    "(solve -> _solve_variant), simultaneous/_get.py (_gets_solution), fords/kalmans.py (the loop over the variants), "
+    "fords/shock_simulators.py and fords/solutions.py (_get_solution_expansion memo lists); it is tied to the code by the session "
+    "correspondence (recorded inputs of fords.kalmans.predict and of _get_solution_expansion, memo-list lengths after every "
+    "operation) - no translator",
     "model/Kalman.v is hand-written from fords/kalmans.py (predict, Cache.calculate_likelihood, "
     "_calculate_variance_scale, calculate_likelihood_contributions, _OutputStore), simultaneous/_kalmans.py and "
     "fords/covariances.py (symmetrize, std_from_cov); it is tied to the code by the tolerance correspondence only",
@@ -29,7 +35,9 @@ ASSUMPTIONS = [
     "theorems are over an arbitrary real field (no rounding); shock covariances symmetric; statements that mention the inverse "
     "of F need F invertible in every period",
     "unit-root models: diffuse_method='fixed_unknown' (the default) with the unit roots identified by the data (the GLS "
-    "system is solved by the inverse in the model, by lstsq in the code); one parameter variant; the impact of anticipated "
+    "system is solved by the inverse in the model, by lstsq in the code); the numerical model is that of ONE pass of the "
+    "loop over the parameter variants - which solution, values, expansion matrices and data column each pass of each call of a "
+    "session is handed is the subject of model/KalmanSession.v (state machine over the variants, black boxes abstract); the impact of anticipated "
     "shocks enters the model as an input that the harness derives from a public simulate() run on a fresh model object",
     "the model follows the code as repaired by fixes/C03_1.patch (contributions carry the variance scale)",
 ]
@@ -48,7 +56,9 @@ MANIFEST = {
                   "given all data so far and the reported likelihood is the negative log density of the stacked data; "
                   "contributions sum to the total for rescale_variance in {True, False}; empty periods contribute 0 and leave "
                   "the state unchanged; var_scale and the concentrated likelihood formula.",
-    "level_note": "PARTIAL: the filter part is complete (one step = conditioning, tower law, and the induction over the periods: "
+    "level_note": "Round 4: props C0x_session_* / C0x_call_variant_pointwise / C0x_reachable_solved_is_fresh are about the "
+                  "model OBJECT (list of variants with stored solutions and memo lists) over every operation history; the numerical "
+                  "black boxes are arbitrary functions there.  PARTIAL: the filter part is complete (one step = conditioning, tower law, and the induction over the periods: "
                   "filtered moments and likelihood = conditioning the stacked Gaussian, C03_filter_is_batch).  Not proved in Coq: "
                   "that the SMOOTHED means/stds (and smoothed shocks) are the conditional moments given all data, and the batch "
                   "characterisation of predicted quantities of shocks; these are checked numerically by the falsifier (dense "
@@ -61,8 +71,12 @@ MANIFEST = {
 
 def correspondence(ctx) -> CorrResult:
     n = int(os.environ.get("VERIF_KF_CASES", ctx.scale(250, 1200)))      # development knob
-    return kc.correspondence(ctx, n_cases=n, n_exact=ctx.scale(3, 12) if n >= 100 else 0,
-                             max_periods=ctx.scale(8, 24), pid=ID)
+    res = kc.correspondence(ctx, n_cases=n, n_exact=ctx.scale(3, 12) if n >= 100 else 0,
+                            max_periods=ctx.scale(8, 24), pid=ID)
+    # the model object as a state machine (model/KalmanSession.v) against real call sequences
+    ks.session_correspondence(ctx, int(os.environ.get("VERIF_KF_SESSIONS", ctx.scale(24, 300))),
+                              max_periods=ctx.scale(8, 16), pid=ID, res=res)
+    return res
 
 
 def falsify(ctx, hints):
@@ -71,7 +85,7 @@ def falsify(ctx, hints):
     seen = set()
 
     def run(case):
-        for f in kc.falsify_c03_case(case):
+        for f in (ks.falsify_session_c03(case) if "ops" in case else kc.falsify_c03_case(case)):
             if f.key not in seen:
                 seen.add(f.key)
                 fails.append(f)
@@ -94,13 +108,28 @@ def falsify(ctx, hints):
             ctx.log("falsifier raised on a case:", f"{type(e).__name__}: {e}"[:200])
         if len(fails) > 10:
             break
+    # sessions: call sequences (alter_num_variants / assign / solve / kalman_filter in both modes / simulate) on one
+    # model object whose variants differ in transition AND measurement parameters
+    ns = int(os.environ.get("VERIF_KF_SESSIONS", ctx.scale(60, 1200)))
+    info["sessions"] = 0
+    srng = ks.session_rng(ctx, "falsifier")      # own stream (derived from the seed): the older cases keep theirs
+    for _ in range(ns):
+        case = ks.gen_session(srng, max_periods=ctx.scale(8, 16))
+        info["sessions"] += 1
+        try:
+            run(case)
+        except Exception as e:  # noqa
+            info["harness_errors"] = info.get("harness_errors", 0) + 1
+            ctx.log("falsifier raised on a session:", f"{type(e).__name__}: {e}"[:200])
+        if len(fails) > 10:
+            break
     return fails, info
 
 
 def replay(ctx, failure: dict):
     case = failure.get("input")
     if isinstance(case, dict) and "model" in case:
-        for f in kc.falsify_c03_case(case):
+        for f in (ks.falsify_session_c03(case) if "ops" in case else kc.falsify_c03_case(case)):
             if f.key == failure["key"]:
                 return f
     return None
